@@ -437,6 +437,50 @@ def chk_both(c, note):
     return None
 
 
+# ------------------------------------------------------------------ neighbour scans in opposite orders (no reference involved)
+def make_scan(rng):
+    """BDS 6,0 on DF20: the IAS/Mach consistency rule compares the indicated airspeed with the airspeed the Mach number gives at the frame's
+    own altitude, so along a scan of the altitude code in 25-ft steps (or of the Mach / IAS field in single counts) the right answer of
+    is60 / infer changes somewhere.  The same calls are made in opposite orders by two fresh copies of the package."""
+    P = D.place
+    kind = rng.choice(["altitude", "altitude", "mach", "ias", "ref_speed", "ref_alt"])
+    mach_raw = rng.randint(90, 245)
+    n0 = rng.randint(80, 1950)
+    cas = isa.mach2cas(mach_raw * 2.048 / 512, (n0 * 25 - 1000) * isa.FT) / isa.KTS
+    ias = max(1, min(500, int(round(cas)) + rng.choice([20, -20, 19, -19, 21, -21])))
+    mb = P(P(P(P(0, 13, 13, 1), 14, 23, ias), 24, 24, 1), 25, 34, mach_raw)
+    addr, head = rng.getrandbits(24), rng.getrandbits(27) & ~0x1FFF
+    hc = rng.choice("UL")
+
+    def msg(mb_, n):
+        return frames.tohex(frames.commb(20, addr, mb_, head | gillham_q1(n)), 112, hc)
+    fns = rng.choice([["decoder.bds.bds60.is60"], ["decoder.bds.bds60.is60", "decoder.bds.infer"], ["decoder.bds.infer"]])
+    jobs = []
+    if kind == "altitude":
+        for n in range(max(0, n0 - 60), min(2040, n0 + 60) + 1):
+            jobs += [(f, (msg(mb, n),)) for f in fns]
+    elif kind == "mach":
+        for m in range(max(1, mach_raw - 25), min(250, mach_raw + 25) + 1):
+            jobs += [(f, (msg(P(mb, 25, 34, m), n0),)) for f in fns]
+    elif kind == "ias":
+        for v in range(max(1, ias - 30), min(500, ias + 30) + 1):
+            jobs += [(f, (msg(P(mb, 14, 23, v), n0),)) for f in fns]
+    else:
+        # a payload that satisfies the BDS 5,0 and the BDS 6,0 layout at once, and a reference that moves in small steps between the two interpretations
+        mb2 = P(P(P(P(P(P(P(0, 1, 1, 1), 3, 11, rng.randint(0, 200)), 12, 12, 1), 13, 13, 1), 14, 23, rng.randint(150, 450)), 24, 24, 1), 25, 34, rng.randint(100, 230))
+        m2 = frames.tohex(frames.commb(21, addr, mb2, head), 112, hc)
+        trk = rng.uniform(0, 360)
+        if kind == "ref_speed":
+            s0 = rng.uniform(100, 500)
+            for k in range(-60, 61):
+                jobs.append(("decoder.bds.is50or60", (m2, s0 + k * rng.choice([1.0, 0.25]), trk, 30000.0)))
+        else:
+            a0 = rng.uniform(2000, 44000)
+            for k in range(-60, 61):
+                jobs.append(("decoder.bds.is50or60", (m2, 380.0, trk, a0 + 25.0 * k)))
+    return "bds60-" + kind, jobs
+
+
 def enum_corpus(ctx):
     from vlib import corpus
     idx = 0
@@ -477,6 +521,8 @@ def chk_corpus(case, note):
 
 
 LEGS = [
+    variants.scan_order_leg(make_scan, quick=96, thorough=4000, doc="BDS 6,0 / is50or60 neighbour scans (altitude code in 25-ft steps, Mach and IAS in single counts, reference speed and altitude in small steps) "
+                            "made in opposite orders by two fresh copies of the package: each call's outcome must not depend on the calls before it"),
     Leg("corpus", chk_corpus, enum=enum_corpus, exhaustive=True, doc="10 000 real DF20/21 replies: reference verdicts vs the predicates, infer consistency"),
     Leg("totality_consistency", chk_any, strategy=s_any, quick=16000, thorough=450000, doc="relations 1 and 2"),
     Leg("completeness", chk_valid, strategy=s_valid, quick=16000, thorough=450000, doc="relation 3: valid in-envelope register contents are accepted and listed"),
